@@ -153,8 +153,11 @@ pub fn run_one(sc: &Scenario, op: &'static OpDef, input: &Input, prefix_inputs: 
                 // in it is not the call under test
                 let _ = std::panic::catch_unwind(std::panic::AssertUnwindSafe(|| exec(pop, pin)));
             }
+            // a panic of the prefix must not be taken for the panic location of the call under test
+            *PANIC_AT.lock().unwrap_or_else(|p| p.into_inner()) = None;
             if repeat {
                 let _ = std::panic::catch_unwind(std::panic::AssertUnwindSafe(|| exec(op, input)));
+                *PANIC_AT.lock().unwrap_or_else(|p| p.into_inner()) = None;
             }
             exec(op, input)
         };
@@ -201,7 +204,7 @@ pub fn gen_scenario(seed: u64, large: u8) -> Scenario {
             continue;
         }
         // operations that meet a pool, a keyed map or an address get 3x the weight of the rest
-        let hot = op.large_ok || matches!(op.name, "stitch_triangulation" | "sweep_intersections" | "sweep_intersections_refs" | "interior_point" | "monotone_subdivision" | "par_iter_multipolygon" | "par_iter_multipoint_mls" | "unary_union_multi" | "intersection_poly_poly");
+        let hot = op.large_ok || matches!(op.name, "stitch_triangulation" | "sweep_intersections" | "sweep_intersections_refs" | "interior_point" | "monotone_subdivision" | "par_iter_multipolygon" | "par_iter_multipoint_mls" | "unary_union_multi" | "intersection_poly_poly" | "constrained_triangulation_members" | "constrained_outer_triangulation");
         if large == 0 && !hot && !rng.chance(1, 3) {
             continue;
         }
